@@ -43,13 +43,11 @@ def check(F, rep):
     rep.ob("linear", not others, site(rr), "the sender is moved only into send(..) or the pending queue (other consumers: %s)" % [callee_names(t)[0] for b, t, ai in others], skey(F, rr, "consumers"))
     if sends and pushes:
         rep.ob("linear", consumed_on_all_paths(rr, 2, [sends[0][0], pushes[0][0]]), site(rr), "on every path the request is answered now or queued (never dropped)", skey(F, rr, "all-paths-consume"))
-        ie = [(b, t) for b, t in rr.calls() if call_matches(t, r"HashMap::is_empty$") and recv_field(rr, t["args"][0]) == "paths"]
-        rep.exact("reply", "paths.is_empty() tests in resolve_remote", len(ie), 1)
-        if ie:
-            ts, _ = call_result_tests(rr, ie[0][0], family="bool")
-            rep.ob("reply", requires_failure(rr, sends[0][0], ts) and requires(rr, pushes[0][0], ts), site(rr, ie[0][0]), "immediate Ok iff the path set is non-empty; queued iff it is empty", skey(F, rr, "immediate-iff-nonempty"))
-            ctrl = {s for s, _ in controlling_switches(rr, sends[0][0])} | {s for s, _ in controlling_switches(rr, pushes[0][0])}
-            rep.ob("reply", ctrl == {t.bb for t in ts}, site(rr, ie[0][0]), "nothing but that emptiness test decides between answering and queueing (controlling switches: %s)" % sorted(ctrl), skey(F, rr, "only-emptiness-decides"))
+        ts, ie = emptiness_tests(rr, "paths")
+        ctrl = {s for s, _ in controlling_switches(rr, sends[0][0])} | {s for s, _ in controlling_switches(rr, pushes[0][0])}
+        rep.ob("reply", bool(ts) and requires_failure(rr, sends[0][0], ts) and requires(rr, pushes[0][0], ts), site(rr, ie[0] if ie else pushes[0][0]),
+               "immediate Ok iff the path set is non-empty; queued iff it is empty (emptiness tests of `paths` found: %d) - a request queued while a path is known is not woken by insert_multiple, which only acts on the empty -> non-empty transition" % len(ie), skey(F, rr, "immediate-iff-nonempty"))
+        rep.ob("reply", bool(ts) and ctrl == {t.bb for t in ts}, site(rr, ie[0] if ie else pushes[0][0]), "nothing but that emptiness test decides between answering and queueing (controlling switches: %s)" % sorted(ctrl), skey(F, rr, "only-emptiness-decides"))
         val = operand_sources(rr, sends[0][1]["args"][1], follow=True)
         rep.ob("reply", val == {("agg", "core::result::Result::Ok")}, site(rr, sends[0][0]), "the immediate reply is Ok(())", skey(F, rr, "immediate-ok"))
     # handle_msg_resolve_remote
